@@ -73,6 +73,10 @@ results belong to the caller (spec: ANames / ACallerEdits of ArMemberRef, GetNam
            (`return self.__members`): editing it changes later getnames() / iteration -- a genuine divergence of this class,
            reported to the lead; until decided a DIAGNOSTIC only (members_list_probe on an ArFile of its own, ctx.sample +
            ctx.extra["diagnostic_getmembers_list_is_internal"]); the harness itself only ever edits a COPY of that list.
+           Observation on the unchanged tree (lead's decision, round 7: diagnostic, never a verdict) -- exact input:
+               a = ArFile(fileobj=io.BytesIO(<ar archive with members 'one' (b"x\\n") and 'two' (b"yy")>))
+               l = a.getmembers(); del l[:1]
+               a.getnames() -> ['two'];  [m.name for m in a] -> ['two'];  a.getmember('one') still returns member 'one'
 faults of the caller's file object (notes/SIZE_STRESS.md part 5; spec: constant Faults, actions AFault / AShort / AOpenFault of
            ArMemberRef, FaultOne / FaultLines of ArMember, TFault / TShort / TOpenFault of TraceArMember).  The file object given
            to ArFile(fileobj=f) is the caller's and may fail at any step of a call.  Half of the shared sessions of every leg
@@ -954,7 +958,7 @@ _edit = [0]
 def caller_edits(lst):
     """what ordinary callers do to a list they were handed: an in-place edit, rotating; returns its name"""
     _edit[0] += 1
-    k = _edit[0] % 6
+    k = (_edit[0] + _edit[0] // 6) % 6         # (callers that edit twice per case must not see only every other kind)
     junk = "edited-by-the-caller" if not lst or isinstance(lst[0], str) else b"edited by the caller\n"
     if k == 0:
         lst.sort()
